@@ -396,6 +396,9 @@ impl<'a> Ctx<'a> {
             let inp = match inp { syn::Pat::Type(pt) => &*pt.pat, p => p };
             let Some(name) = names.get(k) else { self.errors.push("E9: @closure header has fewer parameters than the closure".into()); continue; };
             match inp {
+                // a plain parameter whose source name differs from the @closure header's name keeps its source name in the
+                // body through an alias (renaming a closure parameter in the source is then harmless)
+                syn::Pat::Ident(pi) if pi.by_ref.is_none() && pi.subpat.is_none() && pi.ident != name.as_str() => lets.push_str(&format!("let {} = {name}; ", pi.ident)),
                 syn::Pat::Ident(_) | syn::Pat::Wild(_) => {}
                 syn::Pat::Reference(r) => match &*r.pat {
                     syn::Pat::Ident(pi) => lets.push_str(&format!("let {} = *{name}; ", pi.ident)),
